@@ -86,6 +86,9 @@ func c02Specs(quick bool) []*SeqSpec {
 		specs = append(specs, &SeqSpec{Name: fmt.Sprintf("ramp-%d-holders", n), Cfg: cfg, Ramp: rampHolders(n), Alphabet: rampAlphabet(n), Depth: rd})
 	}
 	specs = append(specs, depthCeilingSpec("depth-ceiling", cfg, rd, false))
+	// the ownership histories once more over REAL binary connections of a full node (pure tree), compared reply
+	// by reply and state by state with the in-memory execution (which the reference model judges above)
+	specs = append(specs, &SeqSpec{Name: "ownership-over-connections", Cfg: cfg, Alphabet: c02Alphabet(quick), Depth: d - 2, Full: true, NoDedupe: true, MaxStates: 400000})
 	return specs
 }
 
@@ -170,7 +173,7 @@ func init() {
 			}, MaxExec: schedCap(4000)}
 		},
 		seq: func(q bool) *SeqPlan {
-			return &SeqPlan{Specs: c02Specs(q), Oracles: []SeqOracle{OracleRef(RefOpts{Results: true, State: true, Counts: true, Prefix: "C02"})}}
+			return &SeqPlan{Specs: c02Specs(q), Oracles: []SeqOracle{OracleRefMem(RefOpts{Results: true, State: true, Counts: true, Prefix: "C02"}), OracleFullVsMem("C02")}}
 		},
 		rule: "schedule DFS (<=2/3 deviations) of two or three concurrent requests about one LockId (unlock vs cancel-wait, unlock vs re-lock, double unlock, unlock-first vs unlock, two cancels): replies and the holders / queue at quiescence must equal the outcome of SOME sequential order of the requests on the reference model (all orders enumerated); non-trivial = at least two client threads answered",
 		note: "histories: explicit-state breadth-first search over operation histories; every transition is an execution of the real engine (fresh instance, history replayed under the default schedule, virtual time); states are deduplicated by a canonical key of the engine state (holders with their owning connection, waiters, values, re-check counters, wheel placement, relative deadlines; request ids dropped); each step is compared with the RefLockDB reference (result codes, LCount/LRCount, holder depths, queue order)",
